@@ -328,7 +328,26 @@ func acqRoster() string {
 	if fd == nil || fd.Body == nil {
 		die("acqroster: func (m *Manager) acquireTasks not found")
 	}
-	found, unconditional := 0, 0
+	found, unconditional, inRetry := 0, 0, 0
+	var loops []*ast.ForStmt // `for attemptCount := ...` loops
+	ast.Inspect(fd.Body, func(m ast.Node) bool {
+		if f, ok := m.(*ast.ForStmt); ok {
+			if as, ok := f.Init.(*ast.AssignStmt); ok && len(as.Lhs) == 1 {
+				if id, ok := as.Lhs[0].(*ast.Ident); ok && id.Name == "attemptCount" {
+					loops = append(loops, f)
+				}
+			}
+		}
+		return true
+	})
+	inLoop := func(p token.Pos) bool {
+		for _, f := range loops {
+			if f.Pos() <= p && p <= f.End() {
+				return true
+			}
+		}
+		return false
+	}
 	var walk func(n ast.Node, underSuccess bool)
 	walk = func(n ast.Node, underSuccess bool) {
 		ast.Inspect(n, func(m ast.Node) bool {
@@ -360,7 +379,9 @@ func acqRoster() string {
 				if sel, ok := v.Fun.(*ast.SelectorExpr); ok && sel.Sel.Name == "append" {
 					if r, ok := sel.X.(*ast.SelectorExpr); ok && r.Sel.Name == "roster" {
 						found++
-						if !underSuccess {
+						if !underSuccess && inLoop(v.Pos()) {
+							inRetry++
+						} else if !underSuccess {
 							unconditional++
 						}
 					}
@@ -376,5 +397,7 @@ func acqRoster() string {
 	var b strings.Builder
 	b.WriteString("(* regenerated on every run by harness/cmd/translate (acqroster) from core/task/manager.go acquireTasks:\n   the newly launched tasks are written to the roster whether or not the deployment succeeded *)\n")
 	fmt.Fprintf(&b, "Definition acq_roster_unconditional : bool := %v.\n", unconditional > 0)
+	b.WriteString("(* ... and so are, inside the loop over the deployment attempts, the tasks of an attempt that is retried *)\n")
+	fmt.Fprintf(&b, "Definition acq_roster_retry : bool := %v.\n", inRetry > 0)
 	return b.String()
 }
